@@ -337,9 +337,14 @@ func c04Composition(in c04In, v0 string, e0 error) *probe.Outcome {
 			want = append(want, mp.Normalize())
 		}
 	}
-	if (wantErr == nil) != (e0 == nil) {
-		o := probe.Fail("whole-message decoding (%v) disagrees with decoding the payloads one by one (%v)", e0, wantErr)
+	if e0 == nil && wantErr != nil {
+		o := probe.Fail("whole-message decoding succeeds although a payload taken alone (exact capacity) is refused (%v): the rest of the datagram influenced its decoding", wantErr)
 		return &o
+	}
+	if e0 != nil && wantErr == nil {
+		// the whole datagram is refused although every payload decodes alone: message-level strictness (e.g. about the header)
+		// is the decoder's right; nothing to compare
+		return nil
 	}
 	if e0 == nil {
 		var got model.Message
